@@ -131,6 +131,16 @@ PROPS = {
         inv=["C20_OwnPort"], step=["C20_Forward"], tinv=["T_C20_NoPanic"],
         gen=[("intertx_g", 40, 25)], gen_t=[("intertx_g", 400, 30)],
     ),
+    "C15": dict(family="iri", mc=[], inv=[], step=[], tinv=[]),
+    "C16": dict(
+        family="data", mc_module="MC_Data", trace_module="TraceData",
+        mc=[("data_q", 300), ("data_buckets_q", 300), ("data_equal_q", 300)],
+        inv=["C16_IdInjective", "C16_RowsReferToIds"],
+        step=["C16_Stable", "C16_FirstTime", "C16_Responses", "C16_ManagerOnly", "C16_Footprint"],
+        tinv=[],
+        gen=[("data_q", 24, 25), ("data_buckets_q", 24, 25), ("data_equal_q", 16, 25), ("data_inj_q", 16, 25)],
+        gen_t=[("data_q", 200, 30), ("data_buckets_q", 200, 30), ("data_equal_q", 100, 30), ("data_inj_q", 100, 30)],
+    ),
     "C17": dict(
         family="eco", mc=[],
         parts=[
